@@ -303,8 +303,13 @@ def run(ctx):
     for cfg in ("K3", "K4"):
         if cfg in progs:
             ctx.guard("block-run", "simd@" + cfg, lambda cfg=cfg: _C02.check_simd_runs(ctx, progs[cfg], cfg))
+    from . import sha2eq
+    got3 = []
+    ctx.guard("compress-eq", "sha256", lambda: got3.append(sha2eq.check_sha256(ctx, progs, thorough=(ctx.tier == "thorough"))))
+    want3 = 6 + (2 if ctx.tier == "thorough" else 0)
+    ctx.check(got3 == [want3], "floor", "compress-eq", "%d SHA-256 block-function runs (portable, 4-way SSE4.1 incl. scalar tail, 8-way AVX) equal the FIPS 180-4 compression as value graphs, hence each other" % want3, "only %s SHA-256 comparisons ran (expected %d)" % (got3, want3), key="floor:compress-eq")
     from . import arx
     got2 = []
     ctx.guard("block-eq", "chacha-engines", lambda: got2.append(arx.check_engines(ctx, {k: progs[k] for k in ("K0", "K6") if k in progs}, families=("chacha",))))
     ctx.check(got2 == [32], "floor", "block-eq", "both ChaCha engines: 2 x 16 pieces equal the same specification graphs, hence each other", "only %s ChaCha engine pieces were compared (expected 32)" % got2, key="floor:block-eq")
-    ctx.not_decided += ["bit-identity of the SHA-256 lane-wise schedule arithmetic with the scalar schedule", "input alignment independence beyond the aligned-access rule"]
+    ctx.not_decided += ["block counts beyond the compared runs (the batch / tail loop structure is decided by the stride and block-run rules)", "input alignment independence beyond the aligned-access rule"]
